@@ -177,3 +177,48 @@ def r4(cx):
                 else:
                     cx.passed(k2, "await-before-planning", [b.sp(sorted(execs)[0])])
     cx.floor("operation bodies that execute a statement", n, 2)
+
+
+PLAN = {ENG + "plan_read_only"}
+
+
+def _is_plan(c):
+    return c in PLAN or c.startswith("datafusion::execution::context::SessionContext::sql") or c.endswith("SessionContext::sql") or c.endswith("SessionContext::sql_with_options")
+
+
+def _is_run(c):
+    return c.startswith("datafusion::dataframe::DataFrame::") and c.rsplit("::", 1)[1] in ("collect", "execute_stream", "collect_partitioned", "execute_stream_partitioned", "show", "count")
+
+
+@rule("C10", "R5", "a statement is bound to its chunk set once: inside the engine's execution entry points no planning call is reachable after an execution of the plan has "
+      "started (a re-plan after a failed or partial run binds `metrics` a second time, long after this query's registration - unless the registration lock spans the operation)")
+def r5(cx):
+    # protected if the lock is held across the whole operation
+    wk, wb = cx.need_body(WMT)
+    ops = [bi for bi, t in wb.calls() if t["callee"] in ("std::ops::FnOnce::call_once", "std::ops::FnMut::call_mut", "std::ops::Fn::call")]
+    polls = [bi for bi, t in wb.calls() if t["callee"].endswith("Future::poll") and ops and bi > max(ops)]
+    guards = _lock_guards(wb)
+    protected = bool(guards and ops and all(any(M.held_at(wb, g, p) for g in guards) for p in ops + polls))
+    n = 0
+    for fk in sorted(EXEC):
+        ck = cx.prog.code_key(fk)
+        b = cx.body(ck)
+        if b is None:
+            cx.violation(fk, "anchor-missing", "execution entry point not found", [])
+            continue
+        plans = M.find_calls(b, _is_plan)
+        runs = M.find_calls(b, _is_run)
+        if not cx.floor("planning calls in %s" % fk.rsplit("::", 1)[1], len(plans), 1, ck) or not cx.floor("plan executions in %s" % fk.rsplit("::", 1)[1], len(runs), 1, ck):
+            continue
+        n += 1
+        bad = []
+        for r in runs:
+            tg = b.term(r).get("target")
+            after = b.reachable(tg) | {tg} if tg is not None else set()
+            bad += [p for p in plans if p in after]
+        if bad and not protected:
+            cx.violation(fk, "planned-once", "%s: the statement is planned again after an execution of it was started: the second plan resolves `metrics` against whatever chunk set is "
+                         "registered by then (another query's), and its rows are returned as this query's result" % b.sp(bad[0]), [b.sp(bad[0])])
+        else:
+            cx.passed(fk, "planned-once", [b.sp(plans[0])])
+    cx.floor("execution entry points", n, 3)
